@@ -245,6 +245,7 @@ type Stats struct {
 	CapHit      string
 	Outcomes    map[string]int // distinct observed outcome classes
 	Samples     []string
+	Deepest     []Op
 	Wall        float64
 }
 
@@ -379,6 +380,9 @@ func Explore(pool *Pool, spec Spec, deadline time.Time, maxViol int) (Stats, []F
 					seen[s.Key] = true
 					st.States++
 					next = append(next, item{p})
+					if len(p) > len(st.Deepest) {
+						st.Deepest = p
+					}
 					if len(st.Samples) < 4 || (st.States%997 == 0 && len(st.Samples) < 10) {
 						st.Samples = append(st.Samples, spec.Name+": "+OpsString(p))
 					}
